@@ -14,7 +14,8 @@ From E57 Require Import Base.Prelude Model.Crc Model.Device Model.PagedWriter Mo
   Model.Record Model.PcWriter Model.QueueReader Model.FileBin Model.ReaderOpen Model.DeviceChunked.
 From E57 Require Import Model.CrashImage.
 From E57 Require Import Proofs.PagedWriterProofs Proofs.ReaderProgStrict Proofs.FaultSim Proofs.FaultWriter
-  Proofs.FaultReader Proofs.FaultChunk Proofs.CrashBridge.
+  Proofs.FaultReader Proofs.FaultChunk Proofs.CrashBridge Proofs.CrashApiSteps Proofs.FaultApi.
+From E57 Require Import Model.Meta Model.MetaFile Model.WriterApi Model.WriterFull.
 
 (** * Faults surface *)
 
@@ -125,3 +126,53 @@ Print Assumptions C16_cd_read_exact_equiv.
 Print Assumptions C16_cd_read_fill_equiv.
 Print Assumptions C16_cpr_fill_loop_equiv.
 Print Assumptions C16_cpr_read_page_equiv.
+
+(** * The same at the level of public API calls (Model/WriterApi.v, Model/WriterFull.v)
+
+    A failed call hands its error to the caller ([CrErr]) and the writer goes on, so the program of
+    a call sequence is not strict; the notion is per call ([csim], Proofs/FaultApi.v): a call on
+    twin states does exactly the same, or operation i was issued and the call RETURNS [CrErr].
+    [api_results calls s] are the results call by call on paged writer [s] (up to a panic of a
+    call, which ends the run).  Nothing is claimed about the calls after the failed one: they run
+    from whatever the failed call left (a page buffer not written, a half-patched section header). *)
+
+Theorem C16_api_step : forall gen_xml lib_version st c i s s', ptwin i s s' ->
+  (ptwin i (fst (wrun (wapi_step gen_xml lib_version st c) s)) (fst (wrun (wapi_step gen_xml lib_version st c) s')) /\
+   snd (wrun (wapi_step gen_xml lib_version st c) s') = snd (wrun (wapi_step gen_xml lib_version st c) s)) \/
+  (i < d_ops (pw_dev (fst (wrun (wapi_step gen_xml lib_version st c) s'))) /\
+   exists a, snd (wrun (wapi_step gen_xml lib_version st c) s') = Ok a /\ exists k, snd a = CrErr k).
+Proof. exact wapi_step_csim. Qed.
+
+(** the call during which operation i is issued returns CrErr (not CrOk, not CrBlob, no panic);
+    the calls before it return what they return without the fault *)
+Theorem C16_api_fault_surfaces : forall fmt64 fmt32 version (calls : list wcall) (i : N), 1 <= i ->
+  i < d_ops (pw_dev (fst (wrun (writer_run fmt64 fmt32 version calls) pw0))) ->
+  exists j e, nth_error (api_results fmt64 fmt32 version calls (pw0f i)) j = Some (CrErr e) /\
+              firstn j (api_results fmt64 fmt32 version calls (pw0f i)) =
+              firstn j (api_results fmt64 fmt32 version calls pw0).
+Proof. exact api_fault_surfaces_full. Qed.
+
+(** on the result lists, when both runs return *)
+Theorem C16_api_fault_surfaces_results : forall fmt64 fmt32 version (calls : list wcall) (i : N) st rs st' rs',
+  1 <= i ->
+  i < d_ops (pw_dev (fst (wrun (writer_run fmt64 fmt32 version calls) pw0))) ->
+  snd (wrun (writer_run fmt64 fmt32 version calls) pw0) = Ok (st, rs) ->
+  snd (wrun (writer_run fmt64 fmt32 version calls) (pw0f i)) = Ok (st', rs') ->
+  exists j e, nth_error rs' j = Some (CrErr e) /\ firstn j rs' = firstn j rs.
+Proof. exact api_fault_surfaces_results. Qed.
+
+(** every call returned without error under the fault plan and the writer is finalized: after
+    Drop the device holds exactly the file of the fault-free run (a fault inside Drop included),
+    and the fault-free run returns the same results *)
+Theorem C16_api_success_complete : forall fmt64 fmt32 version (calls : list wcall) (i : N) st' rs', 1 <= i ->
+  snd (wrun (writer_run fmt64 fmt32 version calls) (pw0f i)) = Ok (st', rs') ->
+  Forall cr_ok rs' -> ws_finalized st' = true ->
+  d_bytes (pw_dev (fst (pw_drop (fst (wrun (writer_run fmt64 fmt32 version calls) (pw0f i)))))) =
+  d_bytes (pw_dev (fst (pw_drop (fst (wrun (writer_run fmt64 fmt32 version calls) pw0))))) /\
+  snd (wrun (writer_run fmt64 fmt32 version calls) pw0) = Ok (st', rs').
+Proof. exact api_success_complete. Qed.
+
+Print Assumptions C16_api_step.
+Print Assumptions C16_api_fault_surfaces.
+Print Assumptions C16_api_fault_surfaces_results.
+Print Assumptions C16_api_success_complete.
